@@ -423,6 +423,7 @@ def _snapshot(world):
             'unsched': a.unschedule,
             'srv_state': srv.state.value if srv else None,
             'srv_since': _since(world, srv) if srv else None,
+            'srv_since_lb': getattr(world, 'down_since_lb', {}).get(srv.name) if srv else None,
             'eligible': bool(srv) and label in srv.labels and
             (traits == 0 or srv.traits.has(traits)),
             'id_invalid': (a.identity is not None and g is not None and a.identity >= g.count),
@@ -574,7 +575,11 @@ def monitors(world, pid, snap, queues, run, hist_tags):
             if st['srv_state'] == 'down' and not excluded:
                 ret = st['retention']
                 expires_at = 0 if ret is None else st['srv_since'] + ret
-                if world.now < expires_at and a.server != st['server']:
+                lb = st.get('srv_since_lb')
+                if ret is not None and lb is not None and world.now < lb + ret and a.server != st['server']:
+                    # the outage began no earlier than `lb` (when the presence node went away)
+                    H('lost-placement-within-retention', 'cycle', (a.name, st['server'], a.server, world.now, lb + ret))
+                elif world.now < expires_at and a.server != st['server']:
                     H('lost-placement-within-retention', 'cycle', (a.name, st['server'], a.server, world.now, expires_at))
                 if world.now >= expires_at and a.server == st['server']:
                     H('kept-placement-after-retention', 'cycle', (a.name, st['server'], world.now, expires_at))
@@ -906,6 +911,7 @@ def _run(case, pid, run, w, stats):
             placed = [(w.app_id[n], a.placement_expiry) for n, a in s.apps.items()]
             parent_id = [b for b, n in w.nodes.items() if n is s.parent][0]
             state, since = s.get_state()
+            shadow = w.shadow_state.get(s.name)
             w.servers.pop(sid)
 
             def f():
@@ -916,6 +922,8 @@ def _run(case, pid, run, w, stats):
                   lambda: _add_server(w, sid, parent_id, cap, label, traits, vu))
             ns = w.servers[sid]
             _emit(run, w, 'state %d %s %d' % (sid, state.value, int(since)), lambda: ns.set_state(state, since))
+            if shadow is not None:
+                w.shadow_state[ns.name] = shadow        # the reloaded server keeps the state it had
             for aid, exp in placed:
                 a = w.apps[aid]
                 if a.name not in w.cell.apps:
